@@ -52,6 +52,7 @@ type stats struct {
 	repoEvals        int64
 	repoJudged       int64
 	repoAccepted     int64
+	formsChecked     int64
 	keys             map[uint64]bool // structural key -> non-trivial
 	viols            []viol
 	violN            map[string]int // violating cases per key
